@@ -104,6 +104,14 @@ def run(ctx):
                 if i + 1 < len(toks):
                     t2 = list(toks); t2[i], t2[i + 1] = t2[i + 1], t2[i]
                     feed(ctx, "".join(t2), "exh-transpose")
+            if k < plan["exhaustive_sentences"] // (5 * max(1, ctx.nshards)) + 1:
+                reps = ["C", "H", "Cl", "Og", "0", "1", "2", "10", "(", ")", "-", ":", ",", "=", "/", "mass", "rad", " "]
+                for i in range(len(toks) + 1):
+                    for r in reps:
+                        if i < len(toks):
+                            feed(ctx, "".join(toks[:i] + [r] + toks[i + 1:]), "exh-replace")
+                        feed(ctx, "".join(toks[:i] + [r] + toks[i:]), "exh-insert")
+                ctx.count("cov_exhaustive_replace_insert_sentences")
             ctx.count("cov_exhaustive_position_sentences")
     ctx.obs["symbols_in_accepted_formulas"] = sorted(seen_syms)
     # known finding F2 probe (shard 0 only): literal longer than the interpreter's int<->str digit limit
